@@ -254,6 +254,47 @@ def trace_task(task):
     return {"nets": nets, "fails": fails}
 
 
+def wide_task(task):
+    """Networks far beyond the bound TLC enumerates (hundreds of features): the construction rule of Made.tla -
+    input degrees 1..D, output block f has degree f, a connection exists iff the degree comparison allows it -
+    is evaluated by the harness on the real network's logged degrees and masks, and the dependency pattern of the
+    real function is measured with all-ones weights."""
+    import torch
+
+    torch.set_num_threads(1)
+    cfg, copy, seed = task
+    fails = []
+    torch.manual_seed(seed)
+    try:
+        net = build_net(copy, cfg)
+    except Exception as e:  # noqa
+        return {"n": 0, "fails": [], "drift": ["constructor rejected %s %s: %r" % (copy, cfg, e)]}
+    if net is None:
+        return {"n": 0, "fails": [], "drift": []}
+    D, m = cfg["D"], cfg["m"]
+    layers = masked_layers(net)
+    def fail(clause, detail):
+        fails.append({"copy": copy, "cfg": cfg, "draws": None, "ctx": None, "seed": seed, "clause": clause, "detail": detail, "wide": True})
+    # degrees of the inputs (read off the first mask's columns is not possible; the final layer's degrees are logged)
+    fin = [int(v) for v in layers[-1][1].degrees.tolist()]
+    want = [f + 1 for f in range(D) for _ in range(m)]
+    if fin != want:
+        bad = next(i for i, (a, b) in enumerate(zip(fin, want)) if a != b) if len(fin) == len(want) else -1
+        fail("wide_output_degrees", "%d features: output unit %d carries degree %s, the construction rule gives %s" % (D, bad, fin[bad] if bad >= 0 else len(fin), want[bad] if bad >= 0 else len(want)))
+    deps = ones_pattern(net, D)
+    for o, row in enumerate(deps):
+        f = o // m
+        late = [j + 1 for j, v in enumerate(row) if v and j >= f]
+        if late:
+            fail("wide_all_ones_weights", "%d features: output unit %d (feature %d) depends on inputs %s" % (D, o, f + 1, late[:6]))
+            break
+        # completeness: with hidden width >= D - 1 and sequential degrees every earlier input is reachable
+        if not cfg["rnd"] and cfg["H"] >= D - 1 and any(row[j] == 0 for j in range(f)):
+            fail("wide_incomplete", "%d features: output unit %d (feature %d) does not depend on input %d" % (D, o, f + 1, row.index(0) + 1))
+            break
+    return {"n": 1, "fails": fails, "drift": []}
+
+
 def use_task(task):
     """Walk the MadeUse graph on real networks; measure the dependency pattern at every Forward."""
     import torch
@@ -376,6 +417,11 @@ def main(run, replay=None):
         for f in assembly.replay(run, replay["case"]):
             run.violation({"kind": "assembly", "clause": f["clause"]}, "replayed: " + f["detail"], replay["case"])
         return
+    if replay and replay["case"].get("wide"):
+        c = replay["case"]
+        for f in wide_task((c["cfg"], c["copy"], c["seed"]))["fails"]:
+            run.violation({"copy": f["copy"], "clause": f["clause"]}, "replayed: " + f["detail"], c)
+        return
     if replay:
         c = replay["case"]
         import torch
@@ -487,6 +533,14 @@ def main(run, replay=None):
                 run.note_drift("constructor rejected %s %s: %s" % (n["copy"], n["cfg"], n["rejected"]))
     run.evaluations += len(nets)
     accepted = validate_nets(run, nets, bounds)
+    # networks with hundreds of features (beyond what TLC enumerates): 8-bit and 16-bit boundaries of the degree range
+    wide = [({"D": D, "H": H, "B": 1, "m": mm, "res": r, "rnd": rn}, copy, run.seed + 3) for D, H in ((300, 300), (257, 40)) for copy, mm in (("transforms.made", 1), ("nn.nde.made", 2), ("nn.nde.MoG", 3)) for r, rn in ((True, False), (False, True))]
+    for out in pmap(wide_task, wide, nproc):
+        run.evaluations += out["n"]
+        fails += out["fails"]
+        for d in out["drift"]:
+            run.note_drift(d)
+    run.extra["wide_networks"] = len(wide)
     # (T) on networks nobody here configured: every MADE the repository's own test-suite constructs
     from vcore import suite
 
@@ -532,6 +586,6 @@ def main(run, replay=None):
     run.exhaustive = True
     run.assumptions = [
         "assembled flows (Assembly.tla): 1..4 features, 1..3 layers, reverse and (injected) random permutations, with / without batch norm between layers",
-        "architectures up to the stated bound (features, hidden width, blocks, multiplier); beyond it only by the structural argument",
+        "architectures up to the stated bound (features, hidden width, blocks, multiplier) are enumerated by TLC; beyond it 12 networks with 257 / 300 features, on which the harness evaluates the construction rule (output degrees, all-ones dependency pattern, completeness)",
         "dependency of the real function is measured with all-ones weights / identity activation (exact) and by autograd Jacobians for random weights, ReLU, batch norm (train and eval) and dropout (subset)",
     ]
